@@ -17,6 +17,13 @@ PROPERTIES = {
         "explanation": "every Memory read/write method verified against the little-endian byte-map view for the two instantiations the simulator uses; unbounded histories by induction on the view",
         "trusted_base": ["fixedint 0.2.0 (model)"],
     },
+    "C01": {
+        "modules": ["contracts.c01_single"],
+        "level": "proof",
+        "explanation": "one unit per in-scope mnemonic (45 + 9 ecall codes): real RiscvSimulation.step in single-stage configuration vs the RV32IM reference on registers, data memory, pc, output, exit code, counters, fault reporting; all register numbers, contents, immediates, memory contents symbolic",
+        "trusted_base": ["fixedint 0.2.0 (model)", "S-MEM (spec/smem.py) stands for state.memory; the flat Memory is proved to implement it in C18", "str(float) digits"],
+        "while_bound": 8,
+    },
     "C06": {
         "modules": ["contracts.toy"],
         "level": "proof",
@@ -48,10 +55,13 @@ PROPERTIES = {
 }
 
 PENDING = "check not built yet in this session (planned, see DESIGN.md section 4)"
-NOT_APPLICABLE = {p: PENDING for p in ["C01", "C02", "C03", "C04", "C05", "C07", "C08", "C09", "C11", "C12", "C13", "C14", "C15", "C16"]}
+NOT_APPLICABLE = {p: PENDING for p in ["C02", "C03", "C04", "C05", "C07", "C08", "C09", "C11", "C12", "C13", "C14", "C15", "C16"]}
 
 _T = "contract-based deductive verification: VCs from symbolic execution of the real AST, z3"
 MANIFEST_TEXT = {
+    "C01": {"text": "Proof per instruction over the full operand space: for each of the 45 in-scope mnemonics and each ecall code, the real single-stage step on a state with arbitrary registers, memory, pc and counters equals the independently written RV32IM reference on every listed component, incl. fault reporting; done <=> exit code or no instruction at pc; run() by loop invariant. Programs follow by induction over steps.",
+            "note": "Data memory is the S-MEM contract object (flat Memory proved to implement it in C18). ecall 4 (string) is BOUNDED to strings of <= 6 bytes with ASCII content; ecall 2 proves only that a0's bits are formatted (float digits trusted). Termination of run() not proved. Known finding F6 (negative pc on backward branch below 0) is listed in known_findings.json.",
+            "technique": _T},
     "C06": {"text": "Proof for all memory images, accumulator values, program counters and max_pc: ToySimulation.step from any instruction-boundary state equals one step of an independently written reference machine on memory, accu, pc, halting, counters; the boundary invariant is inductive, so it holds for every program and history.",
             "note": "Assumes the fixedint model, the executor's Python semantics (A-ENGINE) and C18's memory contract (proved separately). Termination of run() not proved. Non-default unified_memory_size outside the property.",
             "technique": _T},
